@@ -10,7 +10,7 @@ import os
 from mc.core.evidence import Check, Shard
 from mc.core.pool import Pool, chunks
 from mc.gen import chains, content
-from mc.lib7z import Collect, install_key_cache
+from mc.lib7z import fixed_random, Collect, install_key_cache
 from mc.ref import ref7z
 
 MODULE = "mc.checks.c11"
@@ -187,6 +187,25 @@ def judge_written(chain, hmode, pw, variant="str"):
                 out.append(("no-password-wrong-exception", f"raised {r[1]} instead of PasswordRequired"))
             if any(d for _, d in r[2]):  # (an empty sink opened before the decoder asks for the password is not content)
                 out.append(("no-password-delivers", f"{sum(len(d) for _, d in r[2])} bytes were delivered without a password"))
+    # 6. an append session reads the header too: on a header-encrypted archive a wrong or absent password must be an
+    #    error, and the archive must still be what it was (not silently replaced by a new one)
+    if hmode != "off":
+        import py7zr
+
+        for w in wrong_passwords(pw):
+            bio = io.BytesIO(blob)
+            try:
+                with fixed_random("c11-append"), py7zr.SevenZipFile(bio, "a", password=w) as z:
+                    z.writestr(b"appended-with-the-wrong-password-" * 2, "appended-member.txt")
+                raised = False
+            except Exception:
+                raised = True
+            if not raised:
+                r = attempt(bio.getvalue(), pw)
+                kept = r[0] == "ok" and r[1][: len(MEMBERS)] == MEMBERS
+                out.append(("wrong-password-append-accepted", f"append session with password {w!r} on a header-encrypted archive succeeds; original members still readable: {kept}"))
+            elif bio.getvalue() != blob:
+                out.append(("failed-append-modified-archive", f"append session with password {w!r} raised but changed the archive bytes"))
     return out
 
 
